@@ -274,6 +274,9 @@ func (g *gen) ipProbe(kind string) {
 	case 2:
 		c.Class = kind + "-mapped16"
 		c.DstIP = g.mapped16()
+		if g.r.Bool() {
+			c.SrcIP = g.mapped16()
+		}
 	case 3, 4:
 		g.toCLI(c)
 		if g.r.Intn(3) == 0 {
@@ -316,7 +319,14 @@ func (g *gen) override(kind string) {
 
 func (g *gen) arp() {
 	c := g.base("arp", "arp")
-	switch g.r.Intn(5) {
+	switch g.r.Intn(6) {
+	case 5:
+		// the 16-byte form of the source address: what `--srcip` parses to before it is normalised
+		c.Class = "arp-src16"
+		c.SrcIP = g.mapped16()
+		if g.r.Bool() {
+			c.DstIP = g.mapped16()
+		}
 	case 0:
 		c.Class = "arp-mapped16"
 		c.DstIP = g.mapped16()
@@ -353,6 +363,28 @@ func (g *gen) all(n int) {
 	}
 	for i := 0; i < 12; i++ {
 		g.arp()
+	}
+	// both addresses in the 16-byte (IPv4-mapped) form, every filler, both link modes
+	for _, kind := range []string{"tcp", "udp", "icmp", "arp"} {
+		for _, vpn := range []bool{false, true} {
+			if kind == "arp" && vpn {
+				continue
+			}
+			for k := 0; k < 3; k++ {
+				c := g.base(kind, kind+"-src16")
+				c.SrcIP = g.mapped16()
+				if k != 1 {
+					c.DstIP = g.mapped16()
+				}
+				if kind == "tcp" {
+					c.Flags = g.r.Intn(512)
+				}
+				if vpn {
+					g.vpn(c)
+				}
+				g.emit(c)
+			}
+		}
 	}
 	if g.huge {
 		// thorough tier: both link modes for every flag set, every payload length of the regular sweep
